@@ -433,3 +433,71 @@ def _repro_check(tier, runs, budget, nproc):
 
 
 CHECKS["C22"] = _repro_check
+
+
+# ------------------------------------------------------------------------- formsim (C21)
+
+ASSUME_FORM = [
+    "domain validators (oracles/domains.py: own CSV field splitting, expat + own namespace/attribute rules, docutils system messages + own underline/link/numbering rules, own TAR checksum/field layout) are correct and demand exactly what the shipped constraints formalize",
+    "solver exceptions in these runs are C02's business and are counted as inconclusive here",
+] + ASSUME_SOLVERSIM[:2]
+
+
+def _form_summary(lines):
+    fired: Dict[str, int] = {}
+    per_form: Dict[str, Dict[str, int]] = {}
+    inconclusive: Dict[str, int] = {}
+    digests = set()
+    nontrivial = set()
+    samples = []
+    virtual = 0.0
+    phases: Dict[str, int] = {}
+    for l in lines:
+        r = l["record"]
+        phases[r.get("phase", "dry")] = phases.get(r.get("phase", "dry"), 0) + 1
+        f = f"{r.get('formalization')}/{r.get('variant')}"
+        d = per_form.setdefault(f, {"runs": 0, "solutions": 0, "validated": 0})
+        d["runs"] += 1
+        d["solutions"] += (r.get("stats") or {}).get("solutions", 0)
+        d["validated"] += (r.get("stats") or {}).get("validated", 0)
+        for k, v in (r.get("fired") or {}).items():
+            fired[k] = fired.get(k, 0) + v
+        for inc in r.get("inconclusive") or []:
+            key = ":".join(str(inc).split(":")[:3])
+            inconclusive[key] = inconclusive.get(key, 0) + 1
+        virtual += r.get("virtual_s", 0.0)
+        digests.add(r.get("digest"))
+        if (r.get("stats") or {}).get("validated", 0) > 0:
+            nontrivial.add(r.get("digest"))
+        if len(samples) < 4 and "plan" in l and (r.get("stats") or {}).get("validated", 0) > 0:
+            p = l["plan"]
+            samples.append({"run_seed": l.get("run_seed"), "phase": l.get("phase"), "formalization": f, "settings": p["settings"], "cost": p["cost"], "prng": p["prng"], "faults": p["faults"], "solutions_validated": r["stats"]["validated"]})
+    return {
+        "evaluations": len(lines),
+        "distinct_nontrivial": len(nontrivial),
+        "rule": "one evaluation = one simulated solver run on a shipped formalization (grammar + shipped constraint set or a sub-conjunction), settings centred on the repository's own tests/evaluations with per-run variation of PRNG seed/strategy, cost weights and k, cost-order strategy, fuzzer kind and instantiation limits; half of the seeds are re-executed with Z3/clock faults placed inside the run. Every returned solution is judged by Oracle-G and the independent domain validator. Non-trivial = at least one solution validated; distinct = distinct digest over seam events and outcomes.",
+        "samples": samples or [{"note": "none"}],
+        "solutions_validated": sum(d["validated"] for d in per_form.values()),
+        "per_formalization": per_form,
+        "runs_fault_free": phases.get("dry", 0),
+        "runs_faulted": phases.get("faulted", 0),
+        "faults_fired": fired,
+        "inconclusive": inconclusive,
+        "virtual_seconds_simulated": round(virtual, 1),
+        "real_components": ["isla_formalizations.{csv,xml_lang,rest,simple_tar} grammars, constraints and semantic predicates", "ISLaSolver", "Z3", "docutils / expat as oracles"],
+        "stubbed_components": ["Z3 wall-clock timeout -> rlimit budget", "time in isla.solver", "random in isla.*", "cost computer wrapped"],
+    }
+
+
+def _form_check(tier, runs, budget, nproc):
+    thorough = tier == "thorough"
+    n = runs or (2000 if thorough else 64)
+    b = budget or (1800 if thorough else 140)
+    return driver.run_check(
+        "C21", tier, "formsim", {}, n, b, wall=400.0, nproc_total=nproc,
+        level_text={"category": "exploration", "assumptions": ASSUME_FORM},
+        summarize=_form_summary,
+    )
+
+
+CHECKS["C21"] = _form_check
